@@ -70,7 +70,7 @@ def run(ctx):
     ctx.trusted += ["hand model coq/model/TransformBody.v (ASE's quaternion rotation matrix written out), Combs.v; ase.Atoms copying/slicing and numpy RNG are "
                     "exercised, not modelled", "Poisson-sphere guarantee, periodic interpolation target and reseed reproducibility are judged by exact / run-twice oracles only"]
     ctx.build_props()
-    ctx.build_models(["model/TransformQ.vo", "model/Combs.vo"])
+    ctx.build_models(["model/TransformQ.vo", "model/Combs.vo", "model/Lattice.vo"])
     exprs, got, meta = [], [], []
     N = 80 if quick else 2000
     for t in range(N):
@@ -165,6 +165,7 @@ def run(ctx):
     ctx.evaluations += len(exprs)
     ctx.oblige("Translate / Rotate / Mirror outputs == Coq model (exact rationals vs floats) [%d cases]" % len(exprs), "correspondence", nbad == 0, "%d disagree; first: %s" % (nbad, first))
     # ---- linspaceGen
+    lin_exprs, lin_got = [], []
     for t in range(30 if quick else 600):
         n = rng.randint(1, 4)
         L = lc.gen_lattice(rng, lc.LKINDS[t % 5])
@@ -209,6 +210,18 @@ def run(ctx):
                     p = p or "structure %d is not on the straight line between the end points" % k_
         if p:
             ctx.fail_input("linspace", case, p, classify)
+        elif per:
+            # the model of props/C16/periodic_interpolation.v: (steps-1) x every position of the path, from the C03 model of minimum_periodic.
+            # Compared by squared length of the travel (ties between equally near images may pick different cells) and by exact steps.
+            tg = [tuple(p1[i][k] - p0[i][k] for k in range(3)) for i in range(n)]
+            lin_exprs.append("flat_map (fun r => [norm2 (fst r)]) (minimum_periodic_m %s %s false %s)" % (lc.coq_L(L), lc.coq_mask((True, True, True)), lc.coq_vs(tg)))
+            lin_got.append([int(round(float(np.dot(out[-1].get_positions()[i] - np.array(p0[i], float), out[-1].get_positions()[i] - np.array(p0[i], float))))) for i in range(n)])
+    if lin_exprs:
+        lv = fw.coq_eval("c16l", "From Coq Require Import ZArith List Bool.\nImport ListNotations.\nRequire Import Sop.model.Lattice.\nLocal Open Scope Z_scope.\n", lin_exprs)
+        lbad = sum(1 for a_, b_ in zip(lv, lin_got) if list(a_) != list(b_))
+        ctx.evaluations += len(lin_exprs)
+        ctx.oblige("linspaceGen(periodic=True): squared travel of every atom == norm2 of the Coq minimum image of pos1 - pos0 [%d cases]" % len(lin_exprs), "correspondence", lbad == 0,
+                   "%d disagree" % lbad)
     # ---- rattleGen (+ reseed reproducibility)
     for t in range(20 if quick else 300):
         n = rng.randint(1, 5)
